@@ -128,7 +128,7 @@ pub fn mine_header(pow: &Pow, header: HeaderView, start_nonce: u128) -> (HeaderV
 
 impl Chain {
     pub fn new(epochs: Vec<(u64, u32)>, now: u64, seed: u64, pow: Pow, txgen: TxGen) -> Self {
-        let (len0, ct0) = epochs[0];
+        let (_len0, ct0) = epochs[0];
         let mut cb = TransactionBuilder::default()
             .input(CellInput::new_cellbase_input(0))
             .witness(Script::default().into_witness())
@@ -141,7 +141,8 @@ impl Chain {
         }
         let genesis = BlockBuilder::default()
             .compact_target(ct0.pack())
-            .epoch(EpochNumberWithFraction::new(0, 0, len0).pack())
+            // the header of a real genesis block carries the epoch 0(0/0)
+            .epoch(EpochNumberWithFraction::new_unchecked(0, 0, 0).pack())
             .timestamp((now - 2_000_000).pack())
             .transaction(cb.build())
             .build();
